@@ -538,12 +538,19 @@ func genDictCase(cx *CheckCtx, i int, allowQualKeys bool) *Case {
 		},
 		func() *Stmt { return st(kw("Null")) },
 		func() *Stmt { return st() },
+		// text with fmt verbs in it (rendered text must never be used as a format string)
+		func() *Stmt { return st(mkLit(pick(r, []string{"%d items", "100%", "%s", "%%", "%!v(MISSING)"}))) },
+		func() *Stmt { return st(id("n"), op("%"), mkLit(2+r.Intn(3))) },
 	}
 	for j := 0; j < n; j++ {
 		k := keyPool[r.Intn(len(keyPool))]()
 		var v Arg = st(mkLit(1000 + j))
 		if r.Chance(10) {
 			v = st(kw("Null"))
+		} else if r.Chance(12) {
+			v = st(mkLit(fmt.Sprintf("%d%% of %%s", 1000+j)))
+		} else if r.Chance(8) {
+			v = st(mkLit(1000+j), op("%"), id("b"))
 		} else if r.Chance(10) {
 			v = st(id("v"), &Grp{Api: "Index", Args: []Arg{st(mkLit(1000 + j))}})
 		}
